@@ -197,7 +197,7 @@ theorem compExch_call_spec (sim : Sim) (he : sim.ens = .grand) (rs : List Nat) (
       intro i hi; rw [← hlen]; exact hD.valid i hi
     have hsf := saveFixed_clean s.ctx s.atoms h.invg.noSaved
     generalize callTree (.compExch rs b) s = res at *
-    have hheapS : HeapStatic s.heap res.2.heap := by rw [hheap]; exact HeapStatic.refl _
+    have hheapS : HeapStatic s.heap res.2.heap := hheap
     by_cases hx : compExchDelIdx rs s = []
     · obtain ⟨hat, hctx⟩ := hnil hx
       have hlabs : compExchDelLabels rs s = [] := hD.idx_nil_iff.1 hx
